@@ -107,7 +107,7 @@ def check_encoder(f, rep):
     encs = trait_impls(f, "asynchronous_codec::Encoder", "encode")
     rep.floor("R01.1", "Encoder::encode impl of the codec", len(encs), 1)
     for self_ty, enc in encs.items():
-        sym = Sym(f, max_visits=3, inline=lambda fn: fn.get("local") and not fn.get("trait"), inline_depth=2)
+        sym = Sym(f, max_visits=3, inline=lambda fn: fn.get("local") and not fn.get("trait"), inline_depth=4)
         try:
             paths = sym.paths(enc)
         except PathExplosion as e:
@@ -248,7 +248,7 @@ def check_command_writer(f, rep):
              and "BytesMut" in (b.j.get("impl_self") or "") and "ZmqCommand" in b.path]
     rep.floor("R01.5", "From<command> for BytesMut serialiser", len(cands), 1)
     for b in cands:
-        sym = Sym(f, max_visits=2)
+        sym = Sym(f, max_visits=2, inline=pathq.default_inline(f), inline_depth=3)
         paths = [p for p in sym.paths(b) if p.end == "return"]
         checked = 0
         flags_seen = set()
@@ -342,7 +342,7 @@ def check_greeting(f, rep):
     rep.floor("R01.6", "From<greeting> for BytesMut serialiser", len(ws), 1)
     writer_idx = None
     for b in ws:
-        sym = Sym(f, max_visits=2)
+        sym = Sym(f, max_visits=2, inline=pathq.default_inline(f), inline_depth=3)
         paths = [p for p in sym.paths(b) if p.end == "return"]
         rep.floor("R01.6", "greeting serialiser paths", len(paths), 1)
         for p in paths:
@@ -351,8 +351,8 @@ def check_greeting(f, rep):
             for e in p.events:
                 if e.kind == "store" and e.extra and e.extra["k"] == "assign":
                     pl = e.extra["place"]
-                    if len(pl["p"]) == 1 and pl["p"][0]["k"] == "index" and "[u8; " in f.body(b.path).local_ty(pl["l"]):
-                        arr = pl["l"]
+                    if len(pl["p"]) == 1 and pl["p"][0]["k"] == "index" and "[u8; " in f.body(e.fnpath).local_ty(pl["l"]):
+                        arr = (e.fnpath, pl["l"])       # the array may live in a private helper that was looked through
                         idx = e.args[0] if e.args else None
                         if idx and idx[0] == "int":
                             stores[idx[1]] = e.value
@@ -361,7 +361,7 @@ def check_greeting(f, rep):
             if arr is None:
                 rep.bad("R01.6", "R01.6|%s|array-anchor" % b.path, "no byte array with indexed stores found (anchor-missing)", b.loc())
                 continue
-            aty = b.local_ty(arr)
+            aty = f.body(arr[0]).local_ty(arr[1])
             rep.check(aty == "[u8; 64]", "R01.6", "R01.6|%s|length" % b.path, "greeting buffer type %s (RFC: 64 bytes)" % aty, b.loc())
             # zero-initialised
             init = [e for e in p.events if False]
@@ -397,7 +397,7 @@ def check_greeting(f, rep):
     # zero initialisation: Repeat rvalue with 0
     for b in ws:
         z = False
-        for blk in b.blocks:
+        for blk in [blk for sb in pathq.scope(f, b) for blk in sb.blocks]:
             for st in blk["stmts"]:
                 if st["k"] == "assign" and st["rv"]["k"] == "repeat" and st["rv"]["op"].get("int") == 0:
                     z = True
@@ -418,7 +418,7 @@ def check_greeting(f, rep):
     rd = [b for b in f.bodies if b.j.get("name") == "try_from" and "ZmqGreeting" in (b.j.get("impl_self") or "")]
     rep.floor("R01.6", "TryFrom<Bytes> for greeting parser", len(rd), 1)
     for b in rd:
-        sym = Sym(f, max_visits=2)
+        sym = Sym(f, max_visits=2, inline=pathq.default_inline(f), inline_depth=3)
         oks = [p for p in sym.paths(b) if p.end == "return" and p.ret and p.ret[0] == "agg" and p.ret[3] == "Ok"]
         rep.floor("R01.6", "greeting parser Ok paths", len(oks), 1)
         for p in oks:
